@@ -27,7 +27,7 @@ ASSUMPTIONS = [
 NSHARDS = {"quick": 16, "thorough": 16}
 N_CASES = {"quick": 1200, "thorough": 90000}   # per shard
 REQUIRE = {"outcome:oom": 200, "outcome:ok": 200, "zero_tick_operators": 50, "multi_segment_operators": 100,
-           "compared_ticks": 20000, "ambiguous_cases_resolved": 5, "retried_containers": 300, "retries_succeeded": 100, "neighbour_cases:cancel": 300, "neighbour_cases:random": 100, "alloc_class:long-lived": 8}
+           "compared_ticks": 20000, "ambiguous_cases_resolved": 5, "retried_containers": 300, "retries_succeeded": 100, "neighbour_cases:cancel": 300, "neighbour_cases:random": 100, "alloc_class:long-lived": 8, "alloc_class:churn": 3}
 for _l in LAWS:
     REQUIRE["law:" + _l] = 50
 
@@ -207,11 +207,42 @@ def long_container_case(rng):
             "drain": 40000, "_alloc_class": "long-lived"}
 
 
+def churn_case(rng, steps):
+    """Long-lived multi-operator containers (one that fits, one that must OOM late) next to heavy churn:
+    three short two-operator containers are started in every tick, > 500 containers come and go during
+    the long ones' lives.  Their behaviour must not depend on that history."""
+    tps = 10
+    g = 20.0 / tps
+    pipes, steps_l = [], []
+    long_ops = lambda last_read: [
+        {"parents": [], "segs": [{"cpu": (rng.randint(100, 130) + 0.5) / tps, "law": "const", "mem": 1.0, "read": 0.0}]},
+        {"parents": [0], "segs": [{"cpu": (rng.randint(60, 90) + 0.5) / tps, "law": "const", "mem": None, "read": g * (rng.randint(10, 20) + 0.5)}]},
+        {"parents": [1], "segs": [{"cpu": (rng.randint(20, 60) + 0.5) / tps, "law": "const", "mem": None, "read": last_read}]}]
+    pipes.append({"pid": "L-ok", "prio": "BATCH_PIPELINE", "ops": long_ops(g * 6.5)})
+    pipes.append({"pid": "L-oom", "prio": "BATCH_PIPELINE", "ops": long_ops(g * 80.5)})
+    first = {"sus": [], "asg": [{"pool": 0, "cpu": 1, "ram": 60.0, "ops": [[0, 0], [0, 1], [0, 2]]},
+                                 {"pool": 0, "cpu": 1, "ram": 60.0, "ops": [[1, 0], [1, 1], [1, 2]]}]}
+    steps_l.append(first)
+    for t in range(steps):
+        asg = []
+        for j in range(3):
+            i = len(pipes)
+            pipes.append({"pid": f"s{i}", "prio": "BATCH_PIPELINE", "ops": [
+                {"parents": [], "segs": [{"cpu": (rng.randint(0, 1) + 0.5) / tps, "law": "const", "mem": None, "read": g * (rng.randint(1, 3) + 0.5)}]},
+                {"parents": [0], "segs": [{"cpu": (rng.randint(0, 2) + 0.5) / tps, "law": "const", "mem": 0.5, "read": 0.0}]}]})
+            asg.append({"pool": 0, "cpu": 1, "ram": 8.0, "ops": [[i, 0], [i, 1]]})
+        steps_l.append({"sus": [], "asg": asg})
+    return {"kind": "churn", "world": {"pools": 1, "cpus": 64, "ram": 1024, "tps": tps, "multi": True, "overcommit": False},
+            "pipelines": pipes, "steps": steps_l, "drain": 400, "_alloc_class": "churn"}
+
+
 def cases(tier, seed, shard, nshards):
     if shard == 0:
         for d in DIRECTED:
             yield directed_case(d)
     rng = rng_for(ID, seed, shard)
+    if tier == "thorough" or shard < 3:
+        yield churn_case(rng, 320 if tier == "quick" else 700)
     for _l in range(1 if tier == "quick" else 6):
         yield long_container_case(rng)
     for i in range(N_CASES[tier]):
